@@ -256,6 +256,11 @@ func (l *live) read(c *lvCase, r *tor.Reader, pos *int64, buf int, expect int) {
 	t0 := time.Now()
 	go func() {
 		b := make([]byte, buf)
+		defer func() {
+			if x := recover(); x != nil {
+				ch <- res{0, fmt.Errorf("panic in Read: %v", x), b} // class 3: never expected
+			}
+		}()
 		n, err := r.Read(b)
 		ch <- res{n, err, b}
 	}()
